@@ -72,6 +72,18 @@ CHECKS = {
         technique="Coq proof (integer index arithmetic with lia, structural facts of the model) + exhaustive small-grid model/implementation correspondence + slice translator/bridge",
         design="6/C11",
     ),
+    "C06": dict(
+        text="Machine-checked Coq theorems about Model/Solver.v on the periodic domain: rolling the source by any integer cell offsets (wrap-around included) rolls concentration and flux (dispersion, every level, numerical and analytic); moving an on-grid measurement point by whole cells rolls the footprint; a non-zero on-grid measurement point in dispersion mode with even sizes rolls the output so that the centre cell carries the field value at that point. Proved from cyclic re-indexing of finite sums, periodicity and multiplicativity of the roots of unity. The point-reflection clause follows from C02 + the source-shift theorem and is checked directly by the oracle.",
+        note="Theorems are for px = py = 0 (halo observed through explicit padding) and double-precision storage; exact arithmetic (Laws O). Tie: bridge lemmas on lx, ly and both shift arguments + float correspondence with dx != dy, odd sizes, wrap-around towers.",
+        technique="Coq proof (cyclic re-indexing, roots of unity) + slice translator/bridge + float correspondence; roll/reflection oracle on the real code",
+        design="6/C06",
+    ),
+    "C07": dict(
+        text="Machine-checked Coq theorems, per horizontal mode (any layer list, initial state, node): the mode solution and eigenvalue of the x-/y-mirrored problem (wind component negated) at the mirrored wavenumber, and of the axis-swapped problem at the swapped wavenumbers, equal the original ones; multiplying lengths and diffusivities by s leaves (p,q) unchanged with wavenumbers/s and the top condition Kz*eig invariant; multiplying winds and diffusivities by s leaves q unchanged and divides p and the shooting coefficient by s. Array-level mirror/transpose (symmetric up to the Nyquist row/column) are carried by the float correspondence and the symmetry oracle.",
+        note="PARTIAL: array-level mirror/transpose statements are not theorems (named ..._partial); sqrt(r/s^2)=sqrt(r)/s enters the length-scaling top condition as a hypothesis. Exact arithmetic (Laws O).",
+        technique="Coq proof (ring/field identities lifted over layer lists by induction) + slice translator/bridge + float correspondence; symmetry oracle with Nyquist filtering",
+        design="6/C07",
+    ),
 }
 
 NOT_YET = "check not built yet in this round of work (planned in DESIGN.md section 6); no claim is made"
